@@ -27,7 +27,14 @@ SHAPES = {
 }
 QUICK_SHAPES = ['line4', 'grid3x2', 'gen3x2x2', 'gen3x0x2', 'gen0x2x0', 'gen2x2x2']
 KINDS = ['callable', 'list', 'ndarray', 'constant', 'lookup_rank', 'lookup_np_rank', 'lookup_3d', 'constant_tuple',
-         'constant_list', 'callable_mixed', 'lookup_3d_reused']
+         'constant_list', 'callable_mixed', 'lookup_3d_reused', 'constant_subclass', 'callable_shift']
+
+
+class PosConstant(Envs.ConstantGenerator):
+    """A user generator derived from the bundled constant generator whose value depends on the position after all."""
+
+    def __call__(self, pos, cells):
+        return self.value + 100 * pos[0] + 10 * pos[1] + pos[2]
 NAMES = ['p', 'q', 'r']
 
 META = {
@@ -108,6 +115,12 @@ class Harness:
         vals = [f(ki, p) for p in self.table]
         if kind == 'callable':
             return (lambda pos, cells: f(ki, pos)), vals, None
+        if kind == 'constant_subclass':
+            return PosConstant(1000 * ki), [f(ki, p) for p in self.table], None
+        if kind == 'callable_shift':
+            # arithmetic that leaves 64 bits even for small coordinates (exact in Python integers)
+            fn = lambda pos, cells: (1 << (40 + 9 * pos[0] + 5 * pos[1] + 3 * pos[2])) + ki       # noqa
+            return fn, [fn(p, None) for p in self.table], None
         if kind == 'callable_mixed':
             # the first cell yields an int, later cells floats / a bool / a string: each cell keeps its own value
             def mixed(pos, cells):
@@ -258,7 +271,7 @@ def big_world_case(case):
     reset_library()
     wkind, dims = case['kind'], case['dims']
     world = mk(Core.Model(seed=1), wkind, dims)
-    table = [tuple(p) for p in world.cells['pos']]
+    table = [tuple(int(v) for v in p) for p in world.cells['pos']]      # plain ints for the reference
 
     def key(pos, cells):
         # ten digits per axis, built from factors that each fit 64 bits: exact in Python integers, far beyond 2**63
